@@ -464,7 +464,9 @@ def stats_calculation(data, percentile=None):
     if percentile is None:
         return numpy.min(data), numpy.max(data)
     else:
-        return numpy.min(data), numpy.max(data), scoreatpercentile(data, percentile)
+        the_min, the_max = numpy.min(data), numpy.max(data)
+        # NB: the interpolated percentile may leave [min, max] by one rounding step
+        return the_min, the_max, min(max(scoreatpercentile(data, percentile), the_min), the_max)
 
 
 def get_data_extrema(bounds, reader, index, block_size_in_bytes, percentile=None):
